@@ -696,12 +696,12 @@ func (obj *SparseReal32Vector) ITERATOR_FROM(i int) *SparseReal32VectorIterator 
   return &r
 }
 func (obj *SparseReal32Vector) JOINT_ITERATOR(b ConstVector) *SparseReal32VectorJointIterator {
-  r := SparseReal32VectorJointIterator{obj.ITERATOR(), b.ConstIterator(), -1, nil, nil}
+  r := SparseReal32VectorJointIterator{obj.ITERATOR(), b.ConstIterator(), -1, nil, nil, false}
   r.Next()
   return &r
 }
 func (obj *SparseReal32Vector) JOINT3_ITERATOR(b, c ConstVector) *SparseReal32VectorJoint3Iterator {
-  r := SparseReal32VectorJoint3Iterator{obj.ITERATOR(), b.ConstIterator(), c.ConstIterator(), -1, nil, nil, nil}
+  r := SparseReal32VectorJoint3Iterator{obj.ITERATOR(), b.ConstIterator(), c.ConstIterator(), -1, nil, nil, nil, false}
   r.Next()
   return &r
 }
@@ -784,13 +784,13 @@ type SparseReal32VectorJointIterator struct {
   idx int
   s1 *Real32
   s2 ConstScalar
+  ok bool
 }
 func (obj *SparseReal32VectorJointIterator) Index() int {
   return obj.idx
 }
 func (obj *SparseReal32VectorJointIterator) Ok() bool {
-  return !(obj.s1 == nil || obj.s1.GetFloat32() == float32(0)) ||
-         !(obj.s2 == nil || obj.s2.GetFloat32() == float32(0))
+  return obj.ok
 }
 func (obj *SparseReal32VectorJointIterator) Next() {
   ok1 := obj.it1.Ok()
@@ -811,6 +811,9 @@ func (obj *SparseReal32VectorJointIterator) Next() {
       obj.s2 = obj.it2.GetConst()
     }
   }
+  // the iteration ends when no iterator delivered an element, zero
+  // elements of dense vectors must not terminate it
+  obj.ok = obj.s1 != nil || obj.s2 != nil
   if obj.s1 != nil {
     obj.it1.Next()
   }
@@ -844,6 +847,7 @@ func (obj *SparseReal32VectorJointIterator) Clone() *SparseReal32VectorJointIter
   r.idx = obj.idx
   r.s1 = obj.s1
   r.s2 = obj.s2
+  r.ok = obj.ok
   return &r
 }
 func (obj *SparseReal32VectorJointIterator) CloneConstJointIterator() VectorConstJointIterator {
@@ -862,14 +866,13 @@ type SparseReal32VectorJoint3Iterator struct {
   s1 *Real32
   s2 ConstScalar
   s3 ConstScalar
+  ok bool
 }
 func (obj *SparseReal32VectorJoint3Iterator) Index() int {
   return obj.idx
 }
 func (obj *SparseReal32VectorJoint3Iterator) Ok() bool {
-  return !(obj.s1 == nil || obj.s1.GetFloat32() == float32(0)) ||
-         !(obj.s2 == nil || obj.s2.GetFloat32() == float32(0)) ||
-         !(obj.s3 == nil || obj.s3.GetFloat32() == float32(0))
+  return obj.ok
 }
 func (obj *SparseReal32VectorJoint3Iterator) Next() {
   ok1 := obj.it1.Ok()
@@ -905,6 +908,9 @@ func (obj *SparseReal32VectorJoint3Iterator) Next() {
       obj.s3 = obj.it3.GetConst()
     }
   }
+  // the iteration ends when no iterator delivered an element, zero
+  // elements of dense vectors must not terminate it
+  obj.ok = obj.s1 != nil || obj.s2 != nil || obj.s3 != nil
   if obj.s1 != nil {
     obj.it1.Next()
   }
